@@ -12,10 +12,11 @@ import Deepali.Drv.Dispatch
 import Deepali.Drv.ImageOps
 import Deepali.Drv.GridDerive
 import Deepali.Drv.Itk
+import Deepali.Drv.ImageIO
 namespace Deepali.Drv
 open Deepali.Proto
 
 def allHandlers : List (String × Reader String) :=
-  gridHandlers ++ sampleHandlers ++ flowHandlers ++ affineHandlers ++ bsplineHandlers ++ fdHandlers ++ lossHandlers ++ dispatchHandlers ++ imageOpsHandlers ++ gridDeriveHandlers ++ itkHandlers
+  gridHandlers ++ sampleHandlers ++ flowHandlers ++ affineHandlers ++ bsplineHandlers ++ fdHandlers ++ lossHandlers ++ dispatchHandlers ++ imageOpsHandlers ++ gridDeriveHandlers ++ itkHandlers ++ imageioHandlers
 
 end Deepali.Drv
